@@ -94,6 +94,8 @@ def preserve_ob(op):
                             for D1 in (floats if ('D1' in op or op in ('to(tensor)', 'to(instrument)', 'register_buffer')) else [None]):
                                 def run(c):
                                     inst = _state(clsname, D0, Dbuf)
+                                    if clsname == 'HestonStock':
+                                        inst.volatility       # a derived quantity read BEFORE the operation (any cache is now warm)
                                     if op == 'to(D1)':
                                         r = inst.to(D1); want = D1
                                     elif op == 'to(dtype=D1)':
@@ -132,6 +134,12 @@ def preserve_ob(op):
                                     eff_default = default
                                     okd = inst.dtype is want
                                     okb = _inv(inst) and (op != 'simulate' or all(b.dtype is (want or eff_default) for _, b in inst.named_buffers()))
+                                    if clsname == 'HestonStock' and okb:
+                                        # derived series follow the CURRENT buffers: dtype and value
+                                        vol, var = inst.volatility, inst.get_buffer('variance')
+                                        n_, t_ = tm.var('n', 'I'), tm.var('t', 'I')
+                                        same = vol.at((n_, t_)) is tm.app('sqrt', tm.tmax(var.at((n_, t_)), tm.ZERO))
+                                        okb = vol.dtype is var.dtype and same
                                     if not (okd and okb and r is inst):
                                         return Verdict('refuted', 'enumeration', time.time() - t0,
                                                        '%s: from declared %s (buffers %s), %s%s -> declared %s, buffers %s' % (clsname, D0, Dbuf, op, '' if D1 is None else ' with D1=%s' % D1, inst.dtype, [str(b.dtype) for _, b in inst.named_buffers()]),
@@ -302,6 +310,10 @@ for default in (torch.float32, torch.float64):
         for k, v in vals.items():
             if v.dtype != D: bad.append((str(default), str(D), k, str(v.dtype)))
 torch.set_default_dtype(torch.float32)
+for cast in (lambda p: p.to(torch.float64), lambda p: p.double(), lambda p: p.float()):
+    for D0 in (torch.float32, torch.float64):
+        p = pi.HestonStock(dtype=D0); p.simulate(n_paths=2, time_horizon=0.02); p.volatility; cast(p)
+        if p.volatility.dtype != p.variance.dtype or not torch.allclose(p.volatility, p.variance.clamp(min=0).sqrt()): bad.append(("heston volatility after cast", str(D0)))
 try:
     pi.BrownianStock().to(torch.int64); bad.append("int64 accepted")
 except TypeError: pass
